@@ -28,7 +28,7 @@ ASSUMPTIONS = [
     'a discard caused by a DELETED event is located only within [deletion in the cluster, on.event call for it]: observations inside that window accept both contents',
     'index keys are strings or None; values are ints/strings (compared as sorted reprs per key)',
 ]
-BUDGET = {'quick': 60, 'thorough': 1500}
+BUDGET = {'quick': 120, 'thorough': 1500}
 
 RES = {'x': (KEX, 'kopfexamples'), 'y': (KEY, 'kopfwhys')}
 NAMES = {'x': ['x0', 'x1', 'x2'], 'y': ['y0', 'y1', 'y2']}
